@@ -276,10 +276,6 @@ theorem parseBin_eq_directBin' (N : Nat) (op : Op) (l r : Value) :
 
 /-! ### leaves: previous md-variable -/
 
-/-- stored global vectors have the length of the state vector -/
-def EnvWF (e : Env) : Prop :=
-  (∀ v ∈ e.timeVals, v.length = e.N) ∧ (∀ v ∈ e.iterVals, v.length = e.N)
-
 theorem stored_length {e : Env} (h : EnvWF e) {t i : Int} {st : Vec} (hs : stored e t i = .ok st) :
     st.length = e.N := by
   unfold stored at hs
@@ -395,5 +391,721 @@ theorem parse_eq_direct' (deriv : Bool) (e : Env) (hwf : EnvWF e) (t : OpTree) :
     exact parseBin_eq_directBin' _ _ _ _
   | func1 f a iha => simp only [parse, direct, iha]
   | func2 f a b iha ihb => simp only [parse, direct, iha, ihb]
+
+
+/-! ### values without AdArray operands stay without AdArray -/
+
+/-- a result that, when it is a value, is not an AdArray -/
+def okNoAd (r : R Value) : Prop := ∀ z, r = .ok z → z.isAd = false
+
+theorem okNoAd_err (e : Err) : okNoAd (.error e) := fun _ h => by cases h
+theorem okNoAd_ok (v : Value) (h : v.isAd = false) : okNoAd (.ok v) := fun _ hz => by cases hz; exact h
+theorem okNoAd_ite (c : Prop) [Decidable c] (a b : R Value) (ha : okNoAd a) (hb : okNoAd b) :
+    okNoAd (if c then a else b) := by split <;> assumption
+theorem okNoAd_bind {α : Type} (x : R α) (f : α → R Value) (hf : ∀ v, okNoAd (f v)) : okNoAd (x >>= f) := by
+  cases x with
+  | error e => exact okNoAd_err e
+  | ok v => exact hf v
+
+macro "noad" : tactic =>
+  `(tactic| repeat (first
+      | exact okNoAd_err _
+      | exact okNoAd_ok _ rfl
+      | apply okNoAd_ite
+      | (apply okNoAd_bind; intro _)
+      | assumption))
+
+theorem noAd_pyScalar (c : Rat) (op : Op) (r : Value) (hr : r.isAd = false) : okNoAd (pyScalar c op r) := by
+  cases r <;> cases op <;> first | (simp only [pyScalar, matScale]; noad; done) | cases hr
+
+theorem noAd_pyVec (v : Vec) (op : Op) (r : Value) (hr : r.isAd = false) : okNoAd (pyVec v op r) := by
+  cases r <;> cases op <;> first | (simp only [pyVec, vecBin]; noad; done) | cases hr
+
+theorem noAd_pyMat (N : Nat) (m : Mat) (op : Op) (r : Value) (hr : r.isAd = false) : okNoAd (pyMat N m op r) := by
+  cases r <;> cases op <;> first | (simp only [pyMat, matScale, matVec, matMat, matAddSub]; noad; done) | cases hr
+
+theorem noAd_slicerMatmul (N : Nat) (s : Slicer) (r : Value) (hr : r.isAd = false) : okNoAd (slicerMatmul N s r) := by
+  cases r <;> first | (simp only [slicerMatmul, pure_eq_ok]; noad; done) | cases hr
+
+theorem noAd_sumAdd (x y : Value) (hx : x.isAd = false) : okNoAd (sumAdd x y) := by
+  cases x <;> cases y <;> first | (simp only [sumAdd, matAddSub]; noad; done) | cases hx
+
+theorem noAd_foldlM (N : Nat) (x : Value) (rest : List Slicer) :
+    ∀ acc : Value, acc.isAd = false →
+      okNoAd (rest.foldlM (fun acc q => do let t ← slicerMatmul N q x; sumAdd acc t) acc) := by
+  induction rest with
+  | nil => intro acc h; exact okNoAd_ok _ h
+  | cons q rest ih =>
+    intro acc hacc
+    simp only [List.foldlM_cons]
+    intro z hz
+    cases h1 : slicerMatmul N q x with
+    | error e => simp [h1] at hz
+    | ok t =>
+      cases h2 : sumAdd acc t with
+      | error e => simp [h1, h2] at hz
+      | ok acc' =>
+        simp only [h1, h2, bind_ok] at hz
+        exact ih acc' (noAd_sumAdd acc t hacc _ h2) z hz
+
+theorem noAd_sumSlicers (N : Nat) (ps : List Slicer) (x : Value) (hx : x.isAd = false) : okNoAd (sumSlicers N ps x) := by
+  cases ps with
+  | nil => exact okNoAd_ok _ rfl
+  | cons p rest =>
+    simp only [sumSlicers]
+    intro z hz
+    cases h1 : slicerMatmul N p x with
+    | error e => simp [h1] at hz
+    | ok first =>
+      simp only [h1, bind_ok] at hz
+      exact noAd_foldlM N x rest first (noAd_slicerMatmul N p x hx _ h1) z hz
+
+theorem noAd_py (N : Nat) (op : Op) (l r : Value) (hl : l.isAd = false) (hr : r.isAd = false) :
+    okNoAd (py N op l r) := by
+  cases l with
+  | scalar c => exact noAd_pyScalar c op r hr
+  | vec v => exact noAd_pyVec v op r hr
+  | mat m => exact noAd_pyMat N m op r hr
+  | ad a => cases hl
+  | slicer s => cases op <;> first | exact okNoAd_err _ | exact noAd_slicerMatmul N s r hr
+  | slicers ps => exact okNoAd_err _
+
+theorem noAd_directBin (N : Nat) (op : Op) (l r : Value) (hl : l.isAd = false) (hr : r.isAd = false) :
+    okNoAd (directBin N op l r) := by
+  cases l with
+  | ad a => cases hl
+  | slicers ps =>
+    cases op <;> first | exact okNoAd_err _ | exact noAd_sumSlicers N ps r hr
+  | scalar c => cases r <;> first | (simp only [directBin]; exact noAd_py N op _ _ rfl rfl) | cases hr
+  | mat m => cases r <;> first | (simp only [directBin]; exact noAd_py N op _ _ rfl rfl) | cases hr
+  | slicer s => cases r <;> first | (simp only [directBin]; exact noAd_py N op _ _ rfl rfl) | cases hr
+  | vec v =>
+    cases r with
+    | ad a => cases hr
+    | scalar c => cases op <;> first | exact okNoAd_ok _ rfl | (simp only [directBin]; exact noAd_py N _ (.vec v) (.scalar c) rfl rfl)
+    | vec w => cases op <;> first | (simp only [directBin, vecBin]; noad; done) | (simp only [directBin]; exact noAd_py N _ (.vec v) (.vec w) rfl rfl)
+    | mat m => cases op <;> first | exact okNoAd_err _ | (simp only [directBin]; exact noAd_py N _ (.vec v) (.mat m) rfl rfl)
+    | slicer s => cases op <;> first | exact okNoAd_err _ | (simp only [directBin]; exact noAd_py N _ (.vec v) (.slicer s) rfl rfl)
+    | slicers ps => exact okNoAd_err _
+
+
+
+/-! ### derivative=True results map to derivative=False results -/
+
+theorem strip_of_noAd (z : Value) (h : z.isAd = false) : strip z = z := by
+  cases z <;> first | rfl | cases h
+
+theorem mapM_ok {α β : Type} (f : α → R β) (g : α → β) (l : List α) (h : ∀ x ∈ l, f x = .ok (g x)) :
+    l.mapM f = .ok (l.map g) := by
+  induction l with
+  | nil => rfl
+  | cons x xs ih =>
+    rw [List.mapM_cons, h x (List.mem_cons_self), bind_ok, ih (fun y hy => h y (List.mem_cons_of_mem _ hy))]
+    rfl
+
+theorem powEntry_ok (x c : Rat) (hc : isInt c = true) (h : powOk x c.num = true) : powEntry x c = .ok (ipow x c.num) := by
+  unfold powEntry
+  simp only [hc, Bool.not_true, Bool.false_eq_true, if_false]
+  have : (x == 0 && decide (c.num < 0)) = false := by
+    unfold powOk at h
+    cases hx : (x == 0) <;> simp_all
+  simp [this]
+
+theorem hom_ad_scalar (N : Nat) (a : Ad) (c : Rat) (op : Op) (z : Value)
+    (h : directAd a op (.scalar c) = .ok z) :
+    directBin N op (.vec (vals a)) (.scalar c) = .ok (strip z) := by
+  cases op
+  · simp only [directAd] at h; cases h
+    simp [directBin, strip, vals, List.map_map, dAddC, Function.comp_def]
+  · simp only [directAd] at h; cases h
+    simp [directBin, strip, vals, List.map_map, dSubC, Function.comp_def]
+  · simp only [directAd] at h; cases h
+    simp [directBin, py, pyVec, strip, vals, List.map_map, dMulC, Function.comp_def]
+  · simp only [directAd] at h
+    split at h
+    · cases h
+    · rename_i hc
+      cases h
+      simp [directBin, py, pyVec, hc, strip, vals, List.map_map, dDivC, Function.comp_def]
+  · simp only [directAd, dPowS] at h
+    split at h
+    · cases h
+    · split at h
+      · cases h
+      · rename_i hc hok
+        cases h
+        have hc' : isInt c = true := by simpa using hc
+        have hall : ∀ x ∈ vals a, powEntry x c = .ok (ipow x c.num) := by
+          intro x hx
+          obtain ⟨u, hu, rfl⟩ := List.mem_map.mp hx
+          apply powEntry_ok _ _ hc'
+          have hok' : ∀ (x : Dual), x ∈ a → powOk x.v c.num = true := by simpa using hok
+          exact hok' u hu
+        simp only [directBin, py, pyVec, mapM_ok _ _ _ hall, bind_ok, pure_eq_ok, strip]
+        simp [vals, List.map_map, dPowC, Function.comp_def]
+  · simp only [directAd] at h; cases h
+
+
+
+theorem powV_strip : ∀ (a : Ad) (w : Vec), a.length = w.length →
+    (w.any fun c => !isInt c) = false →
+    (List.zipWith (fun (u : Dual) (c : Rat) => !powOk u.v c.num) a w).any id = false →
+    (List.zipWith (fun x c => (x, c)) (vals a) w).mapM (fun p => powEntry p.1 p.2)
+      = .ok (vals (List.zipWith dPowC a w)) := by
+  intro a
+  induction a with
+  | nil => intro w _ _ _; cases w <;> rfl
+  | cons u us ih =>
+    intro w hl hi hp
+    cases w with
+    | nil => simp at hl
+    | cons c cs =>
+      simp only [List.any_cons, Bool.or_eq_false_iff, List.zipWith_cons_cons, id] at hi hp
+      have hc : isInt c = true := by simpa using hi.1
+      have hu : powOk u.v c.num = true := by simpa using hp.1
+      have := ih cs (by simpa using hl) hi.2 hp.2
+      simp only [vals, List.map_cons, List.zipWith_cons_cons, List.mapM_cons, powEntry_ok _ _ hc hu, bind_ok] at this ⊢
+      rw [this]
+      rfl
+
+theorem hom_ad_vec (N : Nat) (a : Ad) (w : Vec) (op : Op) (z : Value)
+    (h : directAd a op (.vec w) = .ok z) :
+    directBin N op (.vec (vals a)) (.vec w) = .ok (strip z) := by
+  cases op
+  · simp only [directAd, zipAV] at h
+    split at h
+    · cases h
+    · rename_i hl; cases h
+      simp [directBin, vecBin, hl, strip, vals, List.map_zipWith, List.zipWith_map_left, dAddC]
+  · simp only [directAd, zipAV] at h
+    split at h
+    · cases h
+    · rename_i hl; cases h
+      simp [directBin, vecBin, hl, strip, vals, List.map_zipWith, List.zipWith_map_left, dSubC]
+  · simp only [directAd, zipAV] at h
+    split at h
+    · cases h
+    · rename_i hl; cases h
+      simp [directBin, py, pyVec, vecBin, hl, strip, vals, List.map_zipWith, List.zipWith_map_left, dMulC]
+  · simp only [directAd, zipAV] at h
+    split at h
+    · cases h
+    · split at h
+      · cases h
+      · rename_i hl hz
+        try simp only [hl, if_false] at h
+        cases h
+        simp [directBin, py, pyVec, hl, hz, strip, vals, List.map_zipWith, List.zipWith_map_left, dDivC]
+  · simp only [directAd, dPowV] at h
+    split at h
+    · cases h
+    · split at h
+      · cases h
+      · split at h
+        · cases h
+        · rename_i hl hi hp
+          cases h
+          have hl' : a.length = w.length := by simpa using hl
+          have := powV_strip a w hl' (by simpa using hi) (by simpa using hp)
+          simp only [directBin, py, pyVec, vals, List.length_map, hl, if_false] at this ⊢
+          rw [this]
+          rfl
+  · simp only [directAd] at h; cases h
+
+theorem hom_ad_ad (N : Nat) (a b : Ad) (op : Op) (z : Value)
+    (h : directAd a op (.ad b) = .ok z) :
+    directBin N op (.vec (vals a)) (.vec (vals b)) = .ok (strip z) := by
+  cases op
+  · simp only [directAd, zipAA] at h
+    split at h
+    · cases h
+    · rename_i hl; cases h
+      simp [directBin, vecBin, hl, strip, vals, List.map_zipWith, List.zipWith_map_left, List.zipWith_map_right, dAdd]
+  · simp only [directAd, zipAA] at h
+    split at h
+    · cases h
+    · rename_i hl; cases h
+      simp [directBin, vecBin, hl, strip, vals, List.map_zipWith, List.zipWith_map_left, List.zipWith_map_right, dSub]
+  · simp only [directAd, zipAA] at h
+    split at h
+    · cases h
+    · rename_i hl; cases h
+      simp [directBin, py, pyVec, vecBin, hl, strip, vals, List.map_zipWith, List.zipWith_map_left, List.zipWith_map_right, dMul]
+  · simp only [directAd, zipAA] at h
+    split at h
+    · cases h
+    · split at h
+      · cases h
+      · rename_i hl hz
+        try simp only [hl, if_false] at h
+        cases h
+        have hz' : hasZero (List.map (fun x => x.v) b) = false := by simpa [vals] using hz
+        simp [directBin, py, pyVec, hl, hz', strip, vals, List.map_zipWith, List.zipWith_map_left, List.zipWith_map_right, dDiv]
+  · simp only [directAd] at h
+    split at h <;> cases h
+  · simp only [directAd] at h; cases h
+
+
+
+theorem hom_scalar_ad (N : Nat) (c : Rat) (a : Ad) (op : Op) (z : Value)
+    (h : directSA c a op = .ok z) :
+    directBin N op (.scalar c) (.vec (vals a)) = .ok (strip z) := by
+  cases op
+  · simp only [directSA] at h; cases h
+    simp [directBin, py, pyScalar, strip, vals, List.map_map, dCAdd, Function.comp_def]
+  · simp only [directSA] at h; cases h
+    simp [directBin, py, pyScalar, strip, vals, List.map_map, dCSub, Function.comp_def]
+  · simp only [directSA] at h; cases h
+    simp [directBin, py, pyScalar, strip, vals, List.map_map, dCMul, Function.comp_def]
+  · simp only [directSA] at h
+    split at h
+    · cases h
+    · rename_i hz; cases h
+      have hz' : hasZero (List.map (fun x => x.v) a) = false := by simpa [vals] using hz
+      simp [directBin, py, pyScalar, hz', strip, vals, List.map_map, dCDiv, Function.comp_def]
+  · simp only [directSA] at h; cases h
+  · simp only [directSA] at h; cases h
+
+theorem zipWith_swap_vals (f : Rat → Rat → Rat) (a : Ad) (v : Vec) :
+    List.zipWith (fun (u : Dual) (c : Rat) => f c u.v) a v = List.zipWith f v (vals a) := by
+  unfold vals
+  rw [List.zipWith_map_right, List.zipWith_comm]
+
+theorem hom_vec_ad (N : Nat) (v : Vec) (a : Ad) (op : Op) (z : Value)
+    (h : directVA v a op = .ok z) :
+    directBin N op (.vec v) (.vec (vals a)) = .ok (strip z) := by
+  cases op
+  · simp only [directVA, zipAV] at h
+    split at h
+    · cases h
+    · rename_i hl; cases h
+      have hl' : v.length = (vals a).length := by simp [vals]; omega
+      simp only [directBin, vecBin, hl', ne_eq, not_true_eq_false, if_false, strip, vals, List.map_zipWith, dCAdd]
+      rw [zipWith_swap_vals (· + ·)]; rfl
+  · simp only [directVA, zipAV] at h
+    split at h
+    · cases h
+    · rename_i hl; cases h
+      have hl' : v.length = (vals a).length := by simp [vals]; omega
+      simp only [directBin, vecBin, hl', ne_eq, not_true_eq_false, if_false, strip, vals, List.map_zipWith, dCSub]
+      rw [zipWith_swap_vals (· - ·)]; rfl
+  · simp only [directVA, zipAV] at h
+    split at h
+    · cases h
+    · rename_i hl; cases h
+      have hl' : v.length = (vals a).length := by simp [vals]; omega
+      simp only [directBin, py, pyVec, vecBin, hl', ne_eq, not_true_eq_false, if_false, strip, vals, List.map_zipWith, dCMul]
+      rw [zipWith_swap_vals (· * ·)]; rfl
+  · simp only [directVA, zipAV] at h
+    split at h
+    · cases h
+    · split at h
+      · cases h
+      · rename_i hz hl; cases h
+        have hl' : v.length = (vals a).length := by simp [vals]; omega
+        have hz' : hasZero (vals a) = false := by simpa using hz
+        simp only [directBin, py, pyVec, hl', hz', ne_eq, not_true_eq_false, if_false, Bool.false_eq_true, strip, dCDiv]
+        rw [← zipWith_swap_vals (· / ·)]
+        simp only [vals, List.map_zipWith]
+  · simp only [directVA] at h; cases h
+  · simp only [directVA] at h; cases h
+
+theorem combo_v (N : Nat) (r : List Rat) (a : Ad) : (combo N r a).v = dot r (vals a) := by
+  unfold combo dot vals
+  suffices ∀ (acc : Dual) (s : Rat), acc.v = s →
+      ((List.zipWith (fun (c : Rat) (u : Dual) => (c, u)) r a).foldl
+        (fun acc p => (⟨acc.v + p.1 * p.2.v, gadd acc.g (gscale p.1 p.2.g)⟩ : Dual)) acc).v
+      = (List.zipWith (· * ·) r (a.map (·.v))).foldl (· + ·) s from this _ _ rfl
+  induction r generalizing a with
+  | nil => intro acc s h; simpa using h
+  | cons c cs ih =>
+    intro acc s h
+    cases a with
+    | nil => simpa using h
+    | cons u us =>
+      simp only [List.zipWith_cons_cons, List.foldl_cons, List.map_cons]
+      exact ih us _ _ (by simp [h])
+
+theorem hom_mat_ad (N : Nat) (m : Mat) (a : Ad) (op : Op) (z : Value)
+    (h : directBin N op (.mat m) (.ad a) = .ok z) :
+    directBin N op (.mat m) (.vec (vals a)) = .ok (strip z) := by
+  cases op
+  all_goals try (simp only [directBin] at h; cases h)
+  simp only [directBin, adRmatmul] at h
+  split at h
+  · cases h
+  · rename_i hl; cases h
+    have hl' : m.nc = (vals a).length := by simp [vals]; omega
+    simp only [directBin, py, pyMat, matVec, hl', ne_eq, not_true_eq_false, if_false, strip, vals, List.map_map]
+    congr 2
+    exact map_congr' _ (fun r => (combo_v N r a).symm)
+
+
+
+theorem scatterFrom_map {α β : Type} (f : α → β) (x : List α) :
+    ∀ (d r : List Nat) (out : List α),
+      scatterFrom (x.map f) d r (out.map f) = (scatterFrom x d r out).map (List.map f) := by
+  intro d
+  induction d with
+  | nil =>
+    intro r out
+    cases r <;> rfl
+  | cons d0 ds ih =>
+    intro r out
+    cases r with
+    | nil => rfl
+    | cons r0 rs =>
+      simp only [scatterFrom, List.getElem?_map, List.length_map]
+      cases hx : x[d0]? with
+      | none => rfl
+      | some e =>
+        simp only [Option.map_some]
+        split
+        · rw [← ih rs (out.set r0 e), List.map_set]
+        · rfl
+
+theorem hom_slicerMatmul (N : Nat) (s : Slicer) (x t : Value) (h : slicerMatmul N s x = .ok t) :
+    slicerMatmul N s (strip x) = .ok (strip t) := by
+  cases x with
+  | ad a =>
+    simp only [slicerMatmul] at h
+    cases ho : scatterFrom a s.dom s.rng (List.replicate s.rsize ⟨0, zeros N⟩) with
+    | error e => simp [ho] at h
+    | ok o =>
+      simp only [ho, bind_ok, pure_eq_ok] at h
+      cases h
+      have := scatterFrom_map (fun u : Dual => u.v) a s.dom s.rng (List.replicate s.rsize ⟨0, zeros N⟩)
+      simp only [List.map_replicate, ho] at this
+      simp only [strip, slicerMatmul, vals, zeros, this]
+      rfl
+  | scalar c => rw [strip_of_noAd _ (noAd_slicerMatmul N s _ rfl t h)]; exact h
+  | vec v => rw [strip_of_noAd _ (noAd_slicerMatmul N s _ rfl t h)]; exact h
+  | mat m => rw [strip_of_noAd _ (noAd_slicerMatmul N s _ rfl t h)]; exact h
+  | slicer s' => rw [strip_of_noAd _ (noAd_slicerMatmul N s _ rfl t h)]; exact h
+  | slicers l => rw [strip_of_noAd _ (noAd_slicerMatmul N s _ rfl t h)]; exact h
+
+theorem hom_sumAdd (p q z : Value) (h : sumAdd p q = .ok z) : sumAdd (strip p) (strip q) = .ok (strip z) := by
+  cases p <;> cases q
+  all_goals try (simp only [sumAdd] at h; cases h; done)
+  · -- vec, vec
+    rw [strip_of_noAd _ (noAd_sumAdd _ _ rfl z h)]; exact h
+  · rw [strip_of_noAd _ (noAd_sumAdd _ _ rfl z h)]; exact h
+  · -- ad, ad
+    rename_i a b
+    simp only [sumAdd, adAdd] at h
+    split at h
+    · cases h
+    · rename_i hl; cases h
+      simp [strip, sumAdd, vals, hl, List.map_zipWith, List.zipWith_map_left, List.zipWith_map_right]
+
+theorem hom_foldlM (N : Nat) (x : Value) (rest : List Slicer) : ∀ (acc z : Value),
+    rest.foldlM (fun acc q => do let t ← slicerMatmul N q x; sumAdd acc t) acc = .ok z →
+    rest.foldlM (fun acc q => do let t ← slicerMatmul N q (strip x); sumAdd acc t) (strip acc) = .ok (strip z) := by
+  induction rest with
+  | nil => intro acc z h; simp only [List.foldlM_nil, pure_eq_ok] at h ⊢; cases h; rfl
+  | cons q rest ih =>
+    intro acc z h
+    simp only [List.foldlM_cons] at h ⊢
+    cases h1 : slicerMatmul N q x with
+    | error e => simp [h1] at h
+    | ok t =>
+      cases h2 : sumAdd acc t with
+      | error e => simp [h1, h2] at h
+      | ok acc' =>
+        simp only [h1, h2, bind_ok] at h
+        simp only [hom_slicerMatmul N q x t h1, hom_sumAdd acc t acc' h2, bind_ok]
+        exact ih acc' z h
+
+theorem hom_sumSlicers (N : Nat) (ps : List Slicer) (x z : Value) (h : sumSlicers N ps x = .ok z) :
+    sumSlicers N ps (strip x) = .ok (strip z) := by
+  cases ps with
+  | nil => simp only [sumSlicers] at h ⊢; cases h; rfl
+  | cons p rest =>
+    simp only [sumSlicers] at h ⊢
+    cases h1 : slicerMatmul N p x with
+    | error e => simp [h1] at h
+    | ok first =>
+      simp only [h1, bind_ok] at h
+      simp only [hom_slicerMatmul N p x first h1, bind_ok]
+      exact hom_foldlM N x rest first z h
+
+/-- forgetting the Jacobians of the operands forgets the Jacobian of the result -/
+theorem directBin_strip (N : Nat) (op : Op) (x y z : Value) (h : directBin N op x y = .ok z) :
+    directBin N op (strip x) (strip y) = .ok (strip z) := by
+  cases x with
+  | ad a =>
+    have h' : directAd a op y = .ok z := by simpa only [directBin] using h
+    cases y with
+    | scalar c => exact hom_ad_scalar N a c op z h'
+    | vec w => exact hom_ad_vec N a w op z h'
+    | ad b => exact hom_ad_ad N a b op z h'
+    | mat m => simp only [directAd] at h'; cases h'
+    | slicer s => cases op <;> (simp only [directAd] at h'; cases h')
+    | slicers l => cases op <;> (simp only [directAd] at h'; cases h')
+  | scalar c =>
+    cases y with
+    | ad a => exact hom_scalar_ad N c a op z (by simpa only [directBin] using h)
+    | _ => rw [strip_of_noAd _ (noAd_directBin N op _ _ rfl rfl z h)]; exact h
+  | vec v =>
+    cases y with
+    | ad a => exact hom_vec_ad N v a op z (by simpa only [directBin] using h)
+    | _ => rw [strip_of_noAd _ (noAd_directBin N op _ _ rfl rfl z h)]; exact h
+  | mat m =>
+    cases y with
+    | ad a => exact hom_mat_ad N m a op z h
+    | _ => rw [strip_of_noAd _ (noAd_directBin N op _ _ rfl rfl z h)]; exact h
+  | slicer s =>
+    cases y with
+    | ad a =>
+      cases op
+      all_goals try (simp only [directBin, py] at h; cases h; done)
+      simp only [directBin, py] at h ⊢
+      exact hom_slicerMatmul N s _ z h
+    | _ => rw [strip_of_noAd _ (noAd_directBin N op _ _ rfl rfl z h)]; exact h
+  | slicers ps =>
+    cases op
+    all_goals try (simp only [directBin] at h; cases h; done)
+    simp only [directBin] at h
+    have := hom_sumSlicers N ps y z h
+    simpa only [directBin, strip] using this
+
+
+/-! ### trees: derivative=True results map to derivative=False results -/
+
+theorem strip_idem_scalar (c : Rat) : strip (.scalar c) = .scalar c := rfl
+
+theorem hom_feval (N : Nat) (f : FExpr) : ∀ (x y z : Value), f.eval N x y = .ok z →
+    f.eval N (strip x) (strip y) = .ok (strip z) := by
+  induction f with
+  | x => intro x y z h; simp only [FExpr.eval] at h ⊢; cases h; rfl
+  | y => intro x y z h; simp only [FExpr.eval] at h ⊢; cases h; rfl
+  | const c => intro x y z h; simp only [FExpr.eval] at h ⊢; cases h; rfl
+  | add a b iha ihb =>
+    intro x y z h
+    simp only [FExpr.eval] at h ⊢
+    cases h1 : a.eval N x y with
+    | error e => simp [h1] at h
+    | ok p =>
+      cases h2 : b.eval N x y with
+      | error e => simp [h1, h2] at h
+      | ok q =>
+        simp only [h1, h2, bind_ok] at h
+        simp only [iha x y p h1, ihb x y q h2, bind_ok]
+        exact directBin_strip N _ p q z h
+  | sub a b iha ihb =>
+    intro x y z h
+    simp only [FExpr.eval] at h ⊢
+    cases h1 : a.eval N x y with
+    | error e => simp [h1] at h
+    | ok p =>
+      cases h2 : b.eval N x y with
+      | error e => simp [h1, h2] at h
+      | ok q =>
+        simp only [h1, h2, bind_ok] at h
+        simp only [iha x y p h1, ihb x y q h2, bind_ok]
+        exact directBin_strip N _ p q z h
+  | mul a b iha ihb =>
+    intro x y z h
+    simp only [FExpr.eval] at h ⊢
+    cases h1 : a.eval N x y with
+    | error e => simp [h1] at h
+    | ok p =>
+      cases h2 : b.eval N x y with
+      | error e => simp [h1, h2] at h
+      | ok q =>
+        simp only [h1, h2, bind_ok] at h
+        simp only [iha x y p h1, ihb x y q h2, bind_ok]
+        exact directBin_strip N _ p q z h
+
+theorem hom_applyFunc (N : Nat) (f : FExpr) (x y z : Value) (h : applyFunc N f x y = .ok z) :
+    applyFunc N f (strip x) (strip y) = .ok (strip z) := by
+  unfold applyFunc at h ⊢
+  cases h1 : f.eval N x y with
+  | error e => simp [h1] at h
+  | ok v =>
+    simp only [h1] at h
+    obtain rfl : v = z := by simpa only [Except.ok.injEq] using h
+    simp only [hom_feval N f x y v h1]
+
+theorem vals_adRows (state : Vec) (idx : List Nat) : vals (adRows state idx) = gather state idx := by
+  simp [vals, adRows, gather, List.map_map, Function.comp_def]
+
+theorem hom_parseLeaf (e : Env) (l : Leaf) (z : Value) (h : parseLeaf true e l = .ok z) :
+    parseLeaf false e l = .ok (strip z) := by
+  cases l with
+  | var subs md t i =>
+    simp only [parseLeaf] at h ⊢
+    split
+    · rename_i hp
+      simp only [hp, if_true] at h
+      cases md with
+      | true =>
+        simp only [if_true] at h ⊢
+        cases hm : mdPrev e t i subs (zeros e.N) with
+        | error er => simp [hm] at h
+        | ok filled => simp only [hm, bind_ok, pure_eq_ok] at h ⊢; cases h; rfl
+      | false =>
+        simp only [Bool.false_eq_true, if_false] at h ⊢
+        cases hm : stored e t i with
+        | error er => simp [hm] at h
+        | ok st => simp only [hm, bind_ok, pure_eq_ok] at h ⊢; cases h; rfl
+    · rename_i hp
+      simp only [hp, if_false, if_true] at h
+      cases h
+      simp only [Bool.false_eq_true, if_false, strip, vals_adRows]
+  | scalar c => simp only [parseLeaf] at h ⊢; cases h; rfl
+  | dense v => simp only [parseLeaf] at h ⊢; cases h; rfl
+  | sparse m => simp only [parseLeaf] at h ⊢; cases h; rfl
+  | proj s => simp only [parseLeaf] at h ⊢; cases h; rfl
+  | td id t =>
+    simp only [parseLeaf] at h ⊢
+    split <;> rename_i hp <;> simp only [hp, if_true, if_false] at h
+    · split <;> rename_i hq <;> simp only [hq] at h
+      · split <;> rename_i hr <;> simp only [hr] at h
+        · cases h; rfl
+        · cases h
+      · cases h
+    · split <;> rename_i hq <;> simp only [hq] at h
+      · cases h; rfl
+      · cases h
+
+
+/-! ### helpers for the statements about previous values and reverse operations -/
+
+theorem noAd_feval (N : Nat) (f : FExpr) (x y : Value) (hx : x.isAd = false) (hy : y.isAd = false) :
+    okNoAd (f.eval N x y) := by
+  induction f with
+  | x => exact okNoAd_ok _ hx
+  | y => exact okNoAd_ok _ hy
+  | const c => exact okNoAd_ok _ rfl
+  | add a b iha ihb =>
+    intro z h
+    simp only [FExpr.eval] at h
+    cases h1 : a.eval N x y with
+    | error er => simp [h1] at h
+    | ok p =>
+      cases h2 : b.eval N x y with
+      | error er => simp [h1, h2] at h
+      | ok q =>
+        simp only [h1, h2, bind_ok] at h
+        exact noAd_directBin N _ p q (iha p h1) (ihb q h2) z h
+  | sub a b iha ihb =>
+    intro z h
+    simp only [FExpr.eval] at h
+    cases h1 : a.eval N x y with
+    | error er => simp [h1] at h
+    | ok p =>
+      cases h2 : b.eval N x y with
+      | error er => simp [h1, h2] at h
+      | ok q =>
+        simp only [h1, h2, bind_ok] at h
+        exact noAd_directBin N _ p q (iha p h1) (ihb q h2) z h
+  | mul a b iha ihb =>
+    intro z h
+    simp only [FExpr.eval] at h
+    cases h1 : a.eval N x y with
+    | error er => simp [h1] at h
+    | ok p =>
+      cases h2 : b.eval N x y with
+      | error er => simp [h1, h2] at h
+      | ok q =>
+        simp only [h1, h2, bind_ok] at h
+        exact noAd_directBin N _ p q (iha p h1) (ihb q h2) z h
+
+theorem noAd_applyFunc (N : Nat) (f : FExpr) (x y : Value) (hx : x.isAd = false) (hy : y.isAd = false) :
+    okNoAd (applyFunc N f x y) := by
+  intro z h
+  unfold applyFunc at h
+  cases h1 : f.eval N x y with
+  | error er => simp [h1] at h
+  | ok v =>
+    simp only [h1] at h
+    obtain rfl : v = z := by simpa only [Except.ok.injEq] using h
+    exact noAd_feval N f x y hx hy v h1
+
+theorem noAd_parseLeaf_false (e : Env) (l : Leaf) : okNoAd (parseLeaf false e l) := by
+  cases l with
+  | var subs md t i => simp only [parseLeaf, Bool.false_eq_true, if_false, pure_eq_ok]; noad
+  | td id t =>
+    simp only [parseLeaf]
+    repeat (first | exact okNoAd_err _ | exact okNoAd_ok _ rfl | apply okNoAd_ite | split)
+  | scalar c => exact okNoAd_ok _ rfl
+  | dense v => exact okNoAd_ok _ rfl
+  | sparse m => exact okNoAd_ok _ rfl
+  | proj s => exact okNoAd_ok _ rfl
+
+/-- Without derivatives no AdArray ever appears. -/
+theorem noAd_parse_false (e : Env) (t : OpTree) : okNoAd (parse false e t) := by
+  induction t with
+  | leaf l => exact noAd_parseLeaf_false e l
+  | projList ps => intro z h; simp only [parse] at h; cases h; rfl
+  | bin op a b iha ihb =>
+    intro z h
+    simp only [parse] at h
+    cases h1 : parse false e a with
+    | error er => simp [h1] at h
+    | ok x =>
+      cases h2 : parse false e b with
+      | error er => simp [h1, h2] at h
+      | ok y =>
+        simp only [h1, h2, bind_ok, parseBin_eq_directBin'] at h
+        exact noAd_directBin e.N op x y (iha x h1) (ihb y h2) z h
+  | func1 f a iha =>
+    intro z h
+    simp only [parse] at h
+    cases h1 : parse false e a with
+    | error er => simp [h1] at h
+    | ok x =>
+      simp only [h1, bind_ok] at h
+      exact noAd_applyFunc e.N f x x (iha x h1) (iha x h1) z h
+  | func2 f a b iha ihb =>
+    intro z h
+    simp only [parse] at h
+    cases h1 : parse false e a with
+    | error er => simp [h1] at h
+    | ok x =>
+      cases h2 : parse false e b with
+      | error er => simp [h1, h2] at h
+      | ok y =>
+        simp only [h1, h2, bind_ok] at h
+        exact noAd_applyFunc e.N f x y (iha x h1) (ihb y h2) z h
+
+theorem jacRows_zipWith_left (f : Dual → Rat → Dual) (hf : ∀ u c, (f u c).g = u.g) :
+    ∀ (a : Ad) (v : Vec), a.length = v.length → jacRows (List.zipWith f a v) = jacRows a := by
+  intro a
+  induction a with
+  | nil => intro v _; rfl
+  | cons u us ih =>
+    intro v hl
+    cases v with
+    | nil => simp at hl
+    | cons c cs =>
+      simp only [jacRows, List.zipWith_cons_cons, List.map_cons, hf] at ih ⊢
+      rw [ih cs (by simpa using hl)]
+
+theorem gadd_comm (g h : List Rat) : gadd g h = gadd h g := by
+  unfold gadd
+  rw [List.zipWith_comm]
+  exact zipWith_congr' h g (fun x y => by grind)
+
+theorem matAdd_comm (m k : Mat) : matAddSub false m k = matAddSub false k m := by
+  obtain ⟨mn, mr⟩ := m
+  obtain ⟨kn, kr⟩ := k
+  unfold matAddSub
+  simp only
+  by_cases h1 : mn = kn
+  · subst h1
+    by_cases h2 : mr.length = kr.length
+    · simp only [ne_eq, not_true_eq_false, false_or, h2, Bool.false_eq_true, if_false]
+      rw [List.zipWith_comm]
+      congr 3
+      exact zipWith_congr' kr mr (fun r s => gadd_comm s r)
+    · have h2' : ¬ kr.length = mr.length := fun e => h2 e.symm
+      simp [h2, h2']
+  · have h1' : ¬ kn = mn := fun e => h1 e.symm
+    simp [h1, h1']
+
+theorem direct_wrap (deriv : Bool) (e : Env) (c : Raw) : direct deriv e c.wrap = .ok c.value := by
+  cases c <;> rfl
 
 end PorepyVerif.C02
